@@ -76,12 +76,13 @@ CONSTANTS
     IdentityEvict,        \* an evicting release deletes the map entry only if it is this very instance
     CloseReleasesBlob,    \* layer.close releases the layer's blob reference
     CloseFiles,           \* closing a cache closes the files it keeps open
+    BlobReleasedOnCloseError, \* layer.close releases the blob reference also when closing the reader returns an error (deferred)
     StampOnlyOnSuccess    \* blob.Check stamps lastCheck only after a probe that succeeded (FALSE: before the probe)
 
 VARIABLES
     lock,     \* [Names -> holder | 0]       namedmutex
     lc, bc,   \* [Names -> id | 0]           layerCache.m, blobCache.m
-    layers,   \* Seq [name, blob, bheld, refs, fin, closed, meta, fsd, files]   id = index, by creation
+    layers,   \* Seq [name, blob, bheld, refs, fin, closed, meta, fsd, files, cerr]   id = index, by creation
     blobs,    \* Seq [name, refs, fin, closed, hd, conn, fresh, bad, fetched, files]; bad (history) = a probe failed and
               \*     the connection has not been seen working or been refreshed since
     fsd, hd,  \* Seq BOOLEAN: directories ever made under <root>/fscache, <root>/httpcache; TRUE = exists
@@ -136,7 +137,7 @@ LClose(w, l) ==
     ELSE LET w1 == [w EXCEPT !.layers[l].closed = TRUE, !.layers[l].meta = FALSE,
                              !.layers[l].files = IF CloseFiles THEN FALSE ELSE @,
                              !.fsd[w.layers[l].fsd] = FALSE]
-         IN IF CloseReleasesBlob
+         IN IF CloseReleasesBlob /\ (BlobReleasedOnCloseError \/ ~w.layers[l].cerr)
             THEN BEvictRelease([w1 EXCEPT !.layers[l].bheld = FALSE], w1.layers[l].blob, w1.layers[l].bheld)
             ELSE w1
 LDec(w, l) ==
@@ -161,7 +162,7 @@ Init ==
     /\ nres = 0 /\ nfault = 0 /\ nbreak = 0
     /\ last = [act |-> "Init", h |-> 0, n |-> NoName, arg |-> TRUE, ok |-> TRUE, ret |-> "", cb |-> 0]
 
-\* cb: the blob whose connectivity the step checked / refreshed (0: none)
+\* cb: the object the step is about: the blob whose connectivity it checked / refreshed, the layer armed by ArmCloseErr (0: none)
 ObsC(a, h, n, arg, ok, ret, cb) ==
     last' = [act |-> a, h |-> h, n |-> n, arg |-> arg, ok |-> ok, ret |-> ret, cb |-> cb]
 Obs(a, h, n, arg, ok, ret) == ObsC(a, h, n, arg, ok, ret, 0)
@@ -317,7 +318,7 @@ OpenMeta(h, arg) ==
     /\ IF arg
        THEN /\ layers' = Append(layers, [name |-> hs[h].n, blob |-> hs[h].b, bheld |-> TRUE, refs |-> 0,
                                          fin |-> TRUE, closed |-> FALSE, meta |-> TRUE, fsd |-> hs[h].fd,
-                                         files |-> FALSE])
+                                         files |-> FALSE, cerr |-> FALSE])
             /\ hs' = [hs EXCEPT ![h].pc = "lnew", ![h].l = Len(layers) + 1, ![h].b = 0, ![h].fd = 0]
             \* reading footer and TOC of a blob nothing was fetched from yet goes to the registry; a successful
             \* fetch stamps lastCheck ("we succeeded to access the blob"). One chunk covers the whole (small) blob,
@@ -428,6 +429,17 @@ Check(h) ==
 
 (* environment                                                               *)
 
+\* the metadata reader of this layer will fail its Close (a reader / cache that cannot clean up): layer.close then
+\* gets an error from closing the reader. The fs cache directory is removed and the reader counts as closed all the same
+\* (reader.Close closes the cache first and joins the errors); what matters is what layer.close does after the error
+ArmCloseErr(l) ==
+    /\ l \in LIds /\ ~layers[l].closed /\ ~layers[l].cerr
+    /\ nfault < MaxFault
+    /\ nfault' = nfault + 1
+    /\ layers' = [layers EXCEPT ![l].cerr = TRUE]
+    /\ UNCHANGED <<lock, lc, bc, blobs, fsd, hd, hs, nres>>
+    /\ ObsC("ArmCloseErr", 0, layers[l].name, FALSE, TRUE, "", l)
+
 \* valid_interval elapses (for every blob). Generation configs (~Extras): only where it makes a difference
 \* to the next check, i.e. some blob would still pass unprobed although its connection is broken
 Tick ==
@@ -481,6 +493,7 @@ NextOther ==
     \/ \E h \in H, a \in BOOLEAN : Refresh(h, a)
     \/ \E h \in H : Check(h)
     \/ Tick
+    \/ \E l \in LIds : ArmCloseErr(l)
     \/ \E n \in Names : TTLExpireLayer(n)
     \/ \E n \in Names : TTLExpireBlob(n)
 
@@ -517,6 +530,10 @@ BGone(b) == blobs[b].closed /\ ~hd[blobs[b].hd]
 AllReleasedAndEvictedFreesEverything ==
     /\ \A l \in LIds : (lc[layers[l].name] # l /\ LUsers(l) = {}) => LGone(l)
     /\ \A b \in BIds : (bc[blobs[b].name] # b /\ BUsers(b) = {} /\ BLayers(b) = {}) => BGone(b)
+\* a blob nobody uses (no Resolve has it in hand, no open layer reads through it) is gone, cached or not: the layer that
+\* used it released it with evict when it was finalised, so "both cache directories" of a released layer are gone
+UnusedBlobIsGone ==
+    \A b \in BIds : (BUsers(b) = {} /\ BLayers(b) = {}) => BGone(b)
 \* nothing of a closed object stays behind: metadata reader closed, directory removed ...
 ClosedMeansGone ==
     /\ \A l \in LIds : layers[l].closed => LGone(l)
